@@ -722,16 +722,6 @@ def saturated_steam(Tk: float):
     assert d <= 0.322
 
 
-@lemma(gen=dict(WGEN, which=[0, 1]), overrides=OVW)
-def saturated_water_and_steam_other_forms(Tk: float, which: int):
-    """the remaining clauses for SaturatedWater (which = 0) / SaturatedSteam (1), split off to keep each lemma short:
-    kg/m^3 = 1000 x g/cm^3, and asking with Tc = Tk - 273.15 gives the same value as asking with Tk"""
-    water_range(Tk)
-    which = choose(which, 0, 1)
-    m = SaturatedWater() if which == 0 else SaturatedSteam()
-    d2 = m.pseudoDensity(Tk=Tk)
-    assert eq(m.pseudoDensityKgM3(Tk=Tk), 1000.0 * d2) and eq(m.densityKgM3(Tk=Tk), 1000.0 * d2), "kg/m^3 = 1000 x g/cm^3"
-    assert eq(m.pseudoDensity(Tc=Tk - K0), d2) and eq(m.density(Tc=Tk - K0), d2), "Tc form = Tk form"
 
 
 @lemma(gen=WGEN, overrides=OVW)
